@@ -518,7 +518,7 @@ def main(tier):
             obligations += r.get("obligations") or 0
             unconfirmed += r.get("unconfirmed") or 0
             st = r.get("stats") or {}
-            for k in ("solver_sat", "solver_unsat", "solver_unknown", "forked_branches", "forced_branches"):
+            for k in runner.STAT_KEYS:
                 agg[k] += st.get(k, 0)
             solver_s += st.get("solver_seconds", 0.0)
             if (r.get("paths") or 0) >= 2:
